@@ -20,7 +20,10 @@ META = {
     'lose two degrees (R-jac, R-pushforward, R-degree); the pointwise '
     'integrand is G_t * u0; the shipped closed-form potentials satisfy the '
     'heat equation with initial trace u0 (K8); time differences in the E1 '
-    'arguments have an entailed sign (R-posdiff).',
+    'arguments have an entailed sign (R-posdiff); the t = 0 case split '
+    'is exact; point comparisons of the domain-mesh search use '
+    'math.isclose with small tolerances (R-tolerance); the load-vector '
+    'cache name carries the problem.',
     'checker_cmd': 'python3-vt -m stbem_static C08 --tier <tier>',
     'trusted_base': ['CPython ast', 'sympy', 'NumPy >= 2 scalar rule'],
 }
